@@ -1,18 +1,54 @@
-(* Correspondence cases for C36: the body of a real /metrics scrape, and the samples the entities call for. *)
+(* Correspondence cases for C36: one real /metrics scrape — what every stub server returned (all entity kinds), the
+   query, the body the real onMetrics handler wrote, and the samples the driver's independent reading of the
+   property calls for.
+
+   mismatch  : the body must be, byte for byte, what the model renders for these entities and this query
+               (section logic, filters, table of metric names / label keys / entity fields, tags, escaping).
+   spec_fail : the property on the observed body only (parsed with the reference parser): valid exposition text,
+               every expected sample present, no other sample under any known metric name. *)
 From Coq Require Import List ZArith Bool.
-Require Export MTX.Model.C36_Metrics.
+From Coq Require Export Uint63.
+Require Export MTX.Model.C36_Metrics MTX.Model.C36_Sections.
 Import ListNotations.
 Local Open Scope Z_scope.
 
-(* body; metric names the expectation list is complete for; expected (name, labels sorted by key, integer value) *)
-Inductive case := Scrape (body : bytes) (covered : list bytes) (expected : list (bytes * list label * Z)).
+(* ---- compact byte strings: 7 bytes per primitive 63-bit integer (big-endian), n = number of bytes ---- *)
+Definition w7 (w : int) : bytes :=
+  map (fun s => Uint63.to_Z (Uint63.land (Uint63.lsr w s) 255)) [48; 40; 32; 24; 16; 8; 0]%uint63.
+Definition B (n : Z) (ws : list int) : bytes := firstn (Z.to_nat n) (concat (map w7 ws)).
 
-Fixpoint beqb (a b : bytes) : bool :=
+(* ---- what the stubs returned ---- *)
+Definition E (str : list (bytes * bytes)) (num : list (bytes * Z)) (flt : list (bytes * bytes)) (readers : list bytes) : entity :=
+  {| e_str := str; e_num := num; e_flt := flt; e_readers := readers |}.
+
+Definition kind_eqb (a b : kind) : bool :=
   match a, b with
-  | [], [] => true
-  | x :: a', y :: b' => (x =? y) && beqb a' b'
+  | KPaths, KPaths | KForward, KForward | KHlsSessions, KHlsSessions | KHlsMuxers, KHlsMuxers | KRtspConns, KRtspConns
+  | KRtspSessions, KRtspSessions | KRtspsConns, KRtspsConns | KRtspsSessions, KRtspsSessions | KRtmpConns, KRtmpConns
+  | KRtmpsConns, KRtmpsConns | KSrtConns, KSrtConns | KWebrtcSessions, KWebrtcSessions | KMoqSessions, KMoqSessions => true
   | _, _ => false
   end.
+
+Fixpoint srv_lookup (k : kind) (l : list (kind * listing)) : listing :=
+  match l with
+  | [] => Absent
+  | (k', v) :: r => if kind_eqb k' k then v else srv_lookup k r
+  end.
+
+(* paths list (None = error), forward destinations per path name (missing / None = error), list per server kind
+   (missing = no server) *)
+Definition mk_state (paths : option (list entity)) (fwd : list (bytes * option (list entity))) (srv : list (kind * listing)) : state :=
+  {| st_paths := paths; st_fwd := fun n => lookup None n fwd; st_srv := fun k => srv_lookup k srv |}.
+
+(* ---- what the property calls for ---- *)
+Inductive val := VI (z : Z) | VT (tok : bytes).       (* integer counter / FormatFloat token *)
+(* one entity (or the zero lines of one kind): its label set sorted by key (None: no label set) and, per metric
+   name, the value *)
+Inductive expent := X (tags : option (list label)) (vals : list (bytes * val)).
+
+Inductive case :=
+| Scrape (paths : option (list entity)) (fwd : list (bytes * option (list entity))) (srv : list (kind * listing))
+         (q : query) (body : bytes) (covered : list bytes) (expected : list expent).
 
 Fixpoint labels_eqb (a b : list label) : bool :=
   match a, b with
@@ -20,36 +56,38 @@ Fixpoint labels_eqb (a b : list label) : bool :=
   | (k1, v1) :: a', (k2, v2) :: b' => beqb k1 k2 && beqb v1 v2 && labels_eqb a' b'
   | _, _ => false
   end.
-
-Definition is_data_line (l : bytes) : bool := negb ((match l with [] => true | _ => false end) || starts_with 35 l).
-
-(* model vs implementation: every sample line of the real body is exactly what the model renders for the sample it
-   parses to (escaping, label order, separators) *)
-Definition mismatch (c : case) : bool :=
-  match c with
-  | Scrape body _ _ =>
-      match split_lines [] body with
-      | None => true
-      | Some ls => negb (forallb (fun l => match parse_sample l with
-                                           | Some s => beqb (s_name s ++ render_tags escape_label (s_tags s) ++ [32] ++ s_value s) l
-                                           | None => false end)
-                                 (filter is_data_line ls))
-      end
+Definition tags_eqb (a b : option (list label)) : bool :=
+  match a, b with
+  | None, None => true
+  | Some x, Some y => labels_eqb x y
+  | _, _ => false
   end.
 
-Definition matches (e : bytes * list label * Z) (s : sample) : bool :=
-  let '(n, ls, v) := e in
-  beqb (s_name s) n && (match s_tags s with Some l => labels_eqb l ls | None => false end) && beqb (s_value s) (format_int v).
+(* model vs implementation: the whole body *)
+Definition mismatch (c : case) : bool :=
+  match c with
+  | Scrape paths fwd srv q body _ _ => negb (beqb body (body_of (mk_state paths fwd srv) q))
+  end.
+
+Definition val_tok (v : val) : bytes := match v with VI z => format_int z | VT t => t end.
+Definition flat_expected (ex : list expent) : list (bytes * option (list label) * bytes) :=
+  flat_map (fun x => match x with X t vs => map (fun nv => (fst nv, t, val_tok (snd nv))) vs end) ex.
+Definition matches (e : bytes * option (list label) * bytes) (s : sample) : bool :=
+  let '(n, t, v) := e in beqb (s_name s) n && tags_eqb (s_tags s) t && beqb (s_value s) v.
 
 (* the property: the body is valid exposition text; every expected sample is present with exactly the entity's
-   label values and counter; and no other sample exists under the covered metric names (nothing injected) *)
+   label values and value; no other sample exists under the covered metric names (nothing injected, nothing of an
+   entity that does not pass the filter, nothing twice) *)
 Definition spec_fail (c : case) : bool :=
   match c with
-  | Scrape body covered expected =>
+  | Scrape _ _ _ _ body covered expected =>
       match parse body with
       | None => true
       | Some ss =>
-          negb (forallb (fun e => existsb (matches e) ss) expected
-                && forallb (fun s => negb (existsb (beqb (s_name s)) covered) || existsb (fun e => matches e s) expected) ss)
+          let fe := flat_expected expected in
+          let cov := filter (fun s => existsb (beqb (s_name s)) covered) ss in
+          negb (forallb (fun e => existsb (matches e) ss) fe
+                && forallb (fun s => existsb (fun e => matches e s) fe) cov
+                && (Z.of_nat (length cov) =? Z.of_nat (length fe)))
       end
   end.
